@@ -5,6 +5,7 @@ package main
 
 import (
 	"encoding/json"
+	"fmt"
 	"runtime"
 	"strings"
 	"sync"
@@ -194,4 +195,58 @@ func parallelFor(n int, f func(i int)) {
 		}()
 	}
 	wg.Wait()
+}
+
+// generatedDocs: documents enumerated by the other generator modules of the specification
+// (Table.tla candidates, CMGen.tla / InlineGen.tla documents in both indentation spellings),
+// as a workload for checks whose oracle needs no expectation (tree shape, totality, ...).
+func generatedDocs(c *Ctx, nSim int) []string {
+	var out []string
+	r := RunTLC(TLCOpts{Module: "Table", Cfg: "Table_gen.cfg", Workers: 8, Timeout: 40 * time.Minute, OnJSON: func(raw []byte) {
+		var t tableCand
+		if json.Unmarshal(raw, &t) != nil {
+			infra("bad table candidate %s", raw)
+		}
+		// the interesting spellings; one container each
+		if t.CellKind == "plain" || t.CellKind == "spaces" || t.Pretext {
+			return
+		}
+		out = append(out, concretiseTable(t))
+	}})
+	r.MustOK("Table generator (workload)")
+	c.Ev.TLC("Table_gen.cfg (workload)", r)
+	seen := map[string]bool{}
+	r = RunTLC(TLCOpts{Module: "CMGen", Cfg: "gen.cfg", CfgText: cmCfg(5, 3, true, true), Workers: 4, Timeout: 30 * time.Minute,
+		Simulate: fmt.Sprintf("num=%d", nSim/4), Depth: 40, Seed: c.Seed*17 + 5, OnJSON: func(raw []byte) {
+			var d cmDoc
+			if json.Unmarshal(raw, &d) != nil || seen[string(raw)] {
+				return
+			}
+			seen[string(raw)] = true
+			out = append(out, spellLines(d.Lines, false))
+			if t := spellLines(d.Lines, true); strings.Contains(t, "\t") {
+				out = append(out, t)
+			}
+		}})
+	if r.TimedOut || (r.Exit != 0 && r.ErrorText != "") {
+		infra("CMGen workload: TLC failed\n%s", r.Tail)
+	}
+	c.Ev.TLC("CMGen simulation (workload)", r)
+	i := 0
+	r = RunTLC(TLCOpts{Module: "InlineGen", Cfg: "gen.cfg", CfgText: igCfg(6, true, false, igAll), Workers: 4, Timeout: 30 * time.Minute,
+		Simulate: fmt.Sprintf("num=%d", nSim/4), Depth: 30, Seed: c.Seed*17 + 6, OnJSON: func(raw []byte) {
+			var d igDoc
+			if json.Unmarshal(raw, &d) != nil || seen[string(raw)] {
+				return
+			}
+			seen[string(raw)] = true
+			i++
+			cs := igCases(d, i, "workload")
+			out = append(out, string(cs[i%len(cs)].Source))
+		}})
+	if r.TimedOut || (r.Exit != 0 && r.ErrorText != "") {
+		infra("InlineGen workload: TLC failed\n%s", r.Tail)
+	}
+	c.Ev.TLC("InlineGen simulation (workload)", r)
+	return out
 }
